@@ -70,6 +70,12 @@ func borrowedFindings(info *types.Info, fd *ast.FuncDecl) (out []borrowedFinding
 			}
 		case *ast.SliceExpr:
 			return why(x.X, depth+1)
+		case *ast.CallExpr:
+			// the bytes of a file as the schema library hands them out: Data() of a bytes.Bytes is the backing array of
+			// the file's content (or a window of it, with the rest of the file in its spare capacity)
+			if cal := calleeInfo(info, x); cal != nil && cal.Name() == "Data" && cal.Pkg() != nil && strings.HasSuffix(cal.Pkg().Path(), "jsight-schema-core/bytes") {
+				return "the bytes of a file (" + exprString(x) + ")"
+			}
 		case *ast.SelectorExpr:
 			// a slice field reached from a by-value struct (receiver or parameter) through value fields only
 			if !isSlice(info.TypeOf(x)) {
@@ -174,6 +180,8 @@ func borrowedFindings(info *types.Info, fd *ast.FuncDecl) (out []borrowedFinding
 			name := exprString(x.Fun)
 			cal := calleeInfo(info, x)
 			switch {
+			case name == "append" && len(x.Args) > 0 && strings.HasPrefix(borrowedExpr(x.Args[0]), "the bytes of a file"):
+				report("append to "+exprString(x.Args[0]), borrowedExpr(x.Args[0])+" are appended to: a window of a file has the rest of the file in its spare capacity, so the appended bytes overwrite the bytes that follow the window in the file itself", x.Pos())
 			case name == "append" && len(x.Args) > 0:
 				if se, ok := ast.Unparen(x.Args[0]).(*ast.SliceExpr); ok && se.High != nil {
 					if w := borrowedExpr(se.X); w != "" {
